@@ -30,6 +30,7 @@ EXPLANATION = (
     " Fourth session: (encode-total) dsutils.encode returns None for whatever the pydicom writer raises; (reply-fresh) C17's fresh-message rule."
     " Fifth round: (handler-exception-status) via C20's attempt in either form; (status-override) an N-service replaces the status a handler returned only for the documented causes (dataset encoding failure, invalid status)."
     " Fifth round (end): (n-reply) the five DIMSE-N SCPs with a reply are evaluated (sa/nscp_eval.py, helpers followed) per status category x data set (non-empty / empty / None) x encoder (ok / fails), plus N-CREATE without an Affected SOP Instance UID: one response, the handler's status (0x0110 only for the documented causes), the handler's data set attached iff Success / Warning; the text rules on the same facts step aside where the reply is built in a helper."
+    " Sixth round: (status-known) borrows C28's docs-agreement, which now compares documented ranges code by code."
 )
 
 CAUSE_PATTERNS = [
